@@ -269,10 +269,11 @@ theorem bytesIO_position_irrelevant (bin : FileType → Str → Except Err Book)
 
 /-- what a channel contributes besides the bytes -/
 def stemOf : Channel → Option Str
-  | .path stem _ => some stem
+  | .path name => some (pathStem name)
   | _ => none
 
-/-- a path supplies its stem as the default form id, every other channel supplies none -/
+/-- **channel_stem.** A path supplies the stem of its file name (`PurePath.stem`) as the default form
+id — whatever its suffix is, recognised as a file type or not — and every other channel supplies none. -/
 theorem channel_stem (bin : FileType → Str → Except Err Book) (c : Channel) (content : Str)
     (t : Option FileType) (b : Book) (st : Option Str) (h : getXlsform bin c content t = .ok (b, st)) :
     st = stemOf c := by
@@ -285,29 +286,67 @@ theorem channel_stem (bin : FileType → Str → Except Err Book) (c : Channel) 
     cases c <;> rfl
 
 /-- what a channel says about the type (only a path with a known suffix does) -/
-theorem fileType_of_not_path (c : Channel) (content : Str) (h : ∀ s x, c ≠ .path s x) :
+theorem fileType_of_not_path (c : Channel) (content : Str) (h : ∀ n, c ≠ .path n) :
     (getDefinitionData c content).fileType = none ∧ (getDefinitionData c content).stem = none := by
   cases c with
-  | path s x => exact absurd rfl (h s x)
+  | path n => exact absurd rfl (h n)
   | _ => exact ⟨rfl, rfl⟩
 
 /-- without `file_type`, the channels that are not paths and deliver the whole content are
 indistinguishable; a path whose suffix names a supported type behaves like that explicit type -/
 theorem channel_independent_implicit (bin : FileType → Str → Except Err Book) (c₁ c₂ : Channel)
-    (content : Str) (h₁ : ∀ s x, c₁ ≠ .path s x) (h₂ : ∀ s x, c₂ ≠ .path s x)
+    (content : Str) (h₁ : ∀ n, c₁ ≠ .path n) (h₂ : ∀ n, c₂ ≠ .path n)
     (w₁ : c₁.whole = true) (w₂ : c₂.whole = true) :
     getXlsform bin c₁ content none = getXlsform bin c₂ content none := by
   rw [getXlsform_eq, getXlsform_eq, data_of_whole c₁ content w₁, data_of_whole c₂ content w₂,
     (fileType_of_not_path c₁ content h₁).1, (fileType_of_not_path c₂ content h₂).1,
     (fileType_of_not_path c₁ content h₁).2, (fileType_of_not_path c₂ content h₂).2]
 
-theorem path_suffix_is_file_type (bin : FileType → Str → Except Err Book) (stem suffix : Str) (content : Str)
-    (t : FileType) (h : FileType.ofSuffix suffix = some t) :
-    getXlsform bin (.path stem suffix) content none = getXlsform bin (.path stem suffix) content (some t) := by
+theorem path_suffix_is_file_type (bin : FileType → Str → Except Err Book) (name : Str) (content : Str)
+    (t : FileType) (h : FileType.ofSuffix (pathSuffix name) = some t) :
+    getXlsform bin (.path name) content none = getXlsform bin (.path name) content (some t) := by
   simp [getXlsform, getDefinitionData, h]
 
-example : (getXlsform (fun _ _ => .error .readError) (.path "f".toList ".md".toList)
-    "| survey |\n| | type | name |\n| | text | a |".toList none).toOption.map Prod.snd = some (some "f".toList) := by decide
+/-- **the stem for arbitrary suffixes.** For a file name `base.ext` (non-empty `base`, which may contain
+dots itself; non-empty dot-free `ext` — `XLSX`, `Md`, `txt`, `markdown`, `v2`, anything) delivered as a
+path, with or without `file_type`, a successful parse carries `fallback_form_name = base`. -/
+theorem channel_stem_any_suffix (bin : FileType → Str → Except Err Book) (base ext content : Str)
+    (t : Option FileType) (b : Book) (st : Option Str) (hb : base ≠ []) (he : ext ≠ []) (hd : '.' ∉ ext)
+    (h : getXlsform bin (.path (base ++ '.' :: ext)) content t = .ok (b, st)) : st = some base := by
+  rw [channel_stem bin _ content t b st h]
+  simp only [stemOf, (pathStem_ext base ext hb he hd).1]
+
+/-- the suffix only selects the parser; the stem never depends on whether it is recognised -/
+theorem stem_independent_of_file_type (bin : FileType → Str → Except Err Book) (name content : Str)
+    (t₁ t₂ : Option FileType) (b₁ b₂ : Book) (s₁ s₂ : Option Str)
+    (h₁ : getXlsform bin (.path name) content t₁ = .ok (b₁, s₁))
+    (h₂ : getXlsform bin (.path name) content t₂ = .ok (b₂, s₂)) : s₁ = s₂ := by
+  rw [channel_stem bin _ content t₁ b₁ s₁ h₁, channel_stem bin _ content t₂ b₂ s₂ h₂]
+
+/-- `PurePath.stem` / `suffix` on `List Char`: partition, last suffix only, leading and trailing dots -/
+theorem pathStem_spec :
+    (∀ n, pathStem n ++ pathSuffix n = n) ∧
+    (∀ base ext, base ≠ [] → ext ≠ [] → '.' ∉ ext →
+      pathStem (base ++ '.' :: ext) = base ∧ pathSuffix (base ++ '.' :: ext) = '.' :: ext) ∧
+    (∀ n, '.' ∉ n → pathStem n = n ∧ pathSuffix n = []) ∧
+    (∀ rest, '.' ∉ rest → pathStem ('.' :: rest) = '.' :: rest ∧ pathSuffix ('.' :: rest) = []) ∧
+    (∀ base, pathStem (base ++ ['.']) = base ++ ['.'] ∧ pathSuffix (base ++ ['.']) = []) :=
+  ⟨pathStem_append_pathSuffix, pathStem_ext, pathStem_no_dot, pathStem_leading_dot, pathStem_trailing_dot⟩
+
+/-- the file-type hint is case-sensitive and exact (so `.XLSX`, `.Md`, `.txt` give no hint) -/
+theorem ofSuffix_exact (s : Str) (t : FileType) (h : FileType.ofSuffix s = some t) :
+    s = (match t with | .xlsx => ".xlsx" | .xlsm => ".xlsm" | .xls => ".xls" | .md => ".md" | .csv => ".csv").toList := by
+  unfold FileType.ofSuffix at h
+  repeat' split at h
+  all_goals first | (injection h with h; subst h; assumption) | cases h
+
+example : pathStem "a.tar.gz".toList = "a.tar".toList ∧ pathSuffix "a.tar.gz".toList = ".gz".toList := by decide
+example : pathStem ".hidden".toList = ".hidden".toList ∧ pathStem "name.".toList = "name.".toList ∧
+    pathStem "FORM.XLSX".toList = "FORM".toList ∧ pathStem "..md".toList = ".".toList := by decide
+example : FileType.ofSuffix (pathSuffix "FORM.XLSX".toList) = none ∧
+    FileType.ofSuffix (pathSuffix "form.backup.xlsx".toList) = some .xlsx := by decide
+example : (getXlsform (fun _ _ => .error .readError) (.path "my.form.MD".toList)
+    "| survey |\n| | type | name |\n| | text | a |".toList none).toOption.map Prod.snd = some (some "my.form".toList) := by decide
 
 
 /-! ## the text containers read back the workbook they render -/
@@ -387,7 +426,7 @@ def exBoth : Workbook :=
 example : Md.MdOK exBoth = true ∧ Csv.CsvOK exBoth = true ∧ isMarkdownTable (renderMd exBoth) = true ∧
     isCsv (renderCsv exBoth) = true := by decide
 
-example : (getXlsform (fun _ _ => .error .readError) (.path "f".toList ".md".toList) (renderMd exBoth) (some .md)).toOption
+example : (getXlsform (fun _ _ => .error .readError) (.path "f.md".toList) (renderMd exBoth) (some .md)).toOption
     = some (toBook exBoth, some "f".toList) := by decide +kernel
 
 
